@@ -185,6 +185,27 @@ func ZZ_C15_structure() {
 		vrt.Assert("pruned_has", zzHasHash(pruned, t.hash[i]))
 	}
 	zzCheckStructure(bt, t, keep)
+	// blocks outside the tree (pruned forks, ancestors of the finalised block, never-added
+	// hashes) are not descendants of anything in it
+	outside := append([]int{}, wantPruned...)
+	for _, i := range live {
+		if i != f && t.isAncestor(i, f) {
+			outside = append(outside, i)
+		}
+	}
+	for _, x := range outside {
+		for _, in := range keep {
+			got, err := bt.IsDescendantOf(t.hash[in], t.hash[x])
+			vrt.Assert("outside_block_not_descendant", !(err == nil && got))
+			got, err = bt.IsDescendantOf(t.hash[x], t.hash[in])
+			vrt.Assert("outside_block_not_ancestor", !(err == nil && got))
+		}
+	}
+	unknown := common.Hash{0xaa, 0xbb}
+	for _, in := range keep {
+		got, err := bt.IsDescendantOf(t.hash[in], unknown)
+		vrt.Assert("unknown_block_not_descendant", !(err == nil && got))
+	}
 	// a second finalisation on the pruned tree
 	if len(keep) > 1 {
 		g := keep[vrt.Choice("finalise2", len(keep))]
